@@ -138,7 +138,8 @@ def source_cases(rng, tier):
     cases = []
     toks = [b'{', b'}', b'[', b']', b'(', b')', b'local ', b'function', b'self', b'super', b'$', b'|||', b'"', b"'", b'\\u', b'@"',
             b'+:', b':::', b'for ', b' in ', b'if ', b'error ', b'assert ', b'import ', b'tailstrict', b'0x', b'1e999', b'1_', b'.', b'//', b'/*',
-            b'\xff', b'\xc1\x81', b'\xed\xa0\x80', b'\xf4\x90\x80\x80', b'\xe6\x97', b'\r\n', b'\t', b'\x00']
+            b'\xff', b'\xc1\x81', b'\xed\xa0\x80', b'\xf4\x90\x80\x80', b'\xe6\x97', b'\r\n', b'\t', b'\x00',
+            b'\xcd\xa1', b'\xe2\x80\x8b', b'\xcc\x81', b'\xe2\x80\x8d', b'\xef\xbb\xbf', b'\xf0\x9d\x84\x9e', b'\xe2\x80\xa8']
     for i in range(n):
         r = rng.random()
         if r < 0.15 or not corpus:
@@ -285,6 +286,14 @@ def cli_stream(run, cli, rng, tier):
                 open(path, 'w').write(deep_source(shape, d))
                 jobs.append((['-s', '10000000', path], ('deep', shape, d)))
 
+        # a sample of the source streams as files through the real binary: the diagnostic must render
+        k = 0
+        for cid, comp, fields, meta in source_cases(vlib.rng_for(run.seed, ID + '/cli-src'), 'quick')[:(250 if tier == 'quick' else 3000)]:
+            path = os.path.join(tmp, 'src_%d.jsonnet' % k)
+            k += 1
+            open(path, 'wb').write(meta['src'])
+            jobs.append((['-s', '50', path], ('src', meta['src'])))
+
         def one(job):
             argv, tag = job
             try:
@@ -300,9 +309,17 @@ def cli_stream(run, cli, rng, tier):
                 run.evaluations += 1
                 if rc in (0, 1, 2):
                     run.count('cli_exit_%d' % rc)
-                    run.nontrivial.add(('cli', rc, tuple(a for a in argv if a.startswith('-'))[:4], tag[1] if tag else ''))
+                    run.nontrivial.add(('cli', rc, tuple(a for a in argv if a.startswith('-'))[:4], (tag[1] if tag[0] == 'deep' else len(tag[1]) // 32) if tag else ''))
                     continue
-                if tag:
+                if tag and tag[0] == 'src':
+                    if 'end_col > annot.span.start_col' in err:
+                        key = 'renderer-zero-width-span'
+                        what = 'report rendering aborts (exit %s) on a span of zero-width characters: %r' % (rc, tag[1][:80])
+                    else:
+                        key = 'cli-source-crash:%s' % (err.strip().split('\n')[-1][:50])
+                        what = 'exit status %s for source %r (%s)' % (rc, tag[1][:80], err.strip()[-120:])
+                    run.violation(key, what, {'kind': 'clisrc', 'source_hex': hxl(list(tag[1]))})
+                elif tag:
                     key = 'native-recursion:%s' % tag[1]
                     what = 'source nested %d levels (%s): exit status %s (%s)' % (tag[2], tag[1], rc, err.strip().split('\n')[-1][:100])
                     run.violation(key, what, {'kind': 'deep', 'shape': tag[1], 'depth': tag[2]})
@@ -362,6 +379,18 @@ def replay(run, path):
             p = os.path.join(tmp, 'deep.jsonnet')
             open(p, 'w').write(src)
             rc = subprocess.run([cli, '-s', '10000000', p], stdout=subprocess.PIPE, stderr=subprocess.PIPE).returncode
+            print('exit status', rc)
+            print('REPRODUCED' if rc not in (0, 1, 2) else 'not reproduced')
+            return 0 if rc in (0, 1, 2) else 1
+        finally:
+            shutil.rmtree(tmp, ignore_errors=True)
+    if isinstance(r, dict) and r.get('kind') == 'clisrc':
+        cli = vlib.build_cli()
+        tmp = tempfile.mkdtemp(prefix='rsj-verif-c01.')
+        try:
+            p = os.path.join(tmp, 'src.jsonnet')
+            open(p, 'wb').write(bytes(int(x, 16) for x in r['source_hex'].split(',')) if r['source_hex'] else b'')
+            rc = subprocess.run([cli, '-s', '50', p], stdout=subprocess.PIPE, stderr=subprocess.PIPE).returncode
             print('exit status', rc)
             print('REPRODUCED' if rc not in (0, 1, 2) else 'not reproduced')
             return 0 if rc in (0, 1, 2) else 1
